@@ -370,7 +370,7 @@ class RTCIceTransport(AsyncIOEventEmitter):
         logger.debug(f"RTCIceTransport(%s) {msg}", self.role, *args)
 
     def __setState(self, state: str) -> None:
-        if state != self.__state:
+        if state != self.__state and self.__state != "closed":
             self.__log_debug("- %s -> %s", self.__state, state)
             self.__state = state
             self.emit("statechange")
